@@ -194,6 +194,9 @@ func runPipe(t *core.T, faults bool) {
 				x.srid = drawSRID(s)
 			}
 			x.g = gen.Geometry(s, opts)
+			if s.Chance(1, 300, "bigmsg") {
+				x.g = gen.Big(s) // one very large message in the middle of a stream of small ones
+			}
 			pl.msgs = append(pl.msgs, x)
 		})
 		w := 0
@@ -218,7 +221,8 @@ func runPipe(t *core.T, faults bool) {
 	}
 
 	k := kernel.New(t, int64(totalWrites*3+8))
-	k.MaxSteps = int64(totalWrites*40 + 10000)
+	// every byte can cost a few scheduling points when the pipe holds one byte and reads fragment
+	k.MaxSteps = int64(totalWrites*16*12 + totalWrites*40 + 10000)
 	for i, pl := range pls {
 		pl.pipe = simio.NewPipe(k, t, cfgs[i].capacity, cfgs[i].pf)
 		pl.start(t, k)
